@@ -731,6 +731,9 @@ package parse
 //@   ensures ok: err == nil ==> r0 != nil && tcur(t) > old(tcur(t))
 
 //@ func parse.parseBlock
+// C10: parseBlock raises no error of its own (in particular none that depends on the blocks of enclosing tables: a block
+// in an embed body may have the name of a block of the host): every error it returns comes from a callee
+//@   noownerrors
 // C12/C09: a block records the name of the template whose source defines it - at any nesting, also in an embed body
 //@   asserts origin: err == nil && istype(r0, "*BlockNode") ==> unbox(r0, "*BlockNode").Origin == t.Name
 // C14: inside delimiters a raw next() / peek() (one that does not skip blanks) never meets a blank - except where a
@@ -992,6 +995,12 @@ package parse
 // C20: nposIs(n, p) - the position recorded in node n is p (whatever the node type)
 //@ pred nposIs(n Node, p Pos) = (istype(n, "*TextNode") ==> unbox(n, "*TextNode").Pos == p) && (istype(n, "*PrintNode") ==> unbox(n, "*PrintNode").Pos == p) && (istype(n, "*BlockNode") ==> unbox(n, "*BlockNode").Pos == p) && (istype(n, "*IfNode") ==> unbox(n, "*IfNode").Pos == p) && (istype(n, "*ExtendsNode") ==> unbox(n, "*ExtendsNode").Pos == p) && (istype(n, "*ForNode") ==> unbox(n, "*ForNode").Pos == p) && (istype(n, "*IncludeNode") ==> unbox(n, "*IncludeNode").Pos == p) && (istype(n, "*UseNode") ==> unbox(n, "*UseNode").Pos == p) && (istype(n, "*SetNode") ==> unbox(n, "*SetNode").Pos == p) && (istype(n, "*DoNode") ==> unbox(n, "*DoNode").Pos == p) && (istype(n, "*FilterNode") ==> unbox(n, "*FilterNode").Pos == p) && (istype(n, "*MacroNode") ==> unbox(n, "*MacroNode").Pos == p) && (istype(n, "*ImportNode") ==> unbox(n, "*ImportNode").Pos == p) && (istype(n, "*FromNode") ==> unbox(n, "*FromNode").Pos == p) && (istype(n, "*CommentNode") ==> unbox(n, "*CommentNode").TextNode.Pos == p) && (istype(n, "*EmbedNode") ==> unbox(n, "*EmbedNode").IncludeNode.Pos == p)
 // C20: an error built by this package's constructors names the template it was raised in
+// C20: the message of a parse error is the caller's message followed by the position and, when known, the template
+// name - each passed to the formatter as an ARGUMENT (a template name is data: it may contain '%')
+//@ func parse.(*parseError).sprintf
+//@   at "fmt.Sprintf(format, a...)" own: true
+//@   at "fmt.Sprintf(\"parse: %s on line %d, column %d\", res, e.Line, e.Offset)" anonymous: e.name == ""
+//@   at "fmt.Sprintf(\"parse: %s on line %d, column %d in %s\", res, e.Line, e.Offset, e.name)" named: e.name != ""
 //@ pred errNamed(e error, name string) = (istype(e, "*UnexpectedTokenError") ==> unbox(e, "*UnexpectedTokenError").baseError.parseError.name == name)
 //@+ && (istype(e, "*UnclosedTagError") ==> unbox(e, "*UnclosedTagError").baseError.parseError.name == name)
 //@+ && (istype(e, "*UnexpectedEOFError") ==> unbox(e, "*UnexpectedEOFError").baseError.parseError.name == name)
